@@ -38,7 +38,7 @@ NewIdsOK == /\ Cardinality(Rng(Rec.newids)) = Len(Rec.newids)
             /\ \A k \in Rng(Rec.newids) : k >= 1 /\ (k \in Node => Rec.r_post.time[k] = NoT)
 P_C06R(x) ==
     /\ NewIdsOK
-    /\ (x.pf.forest /\ x.pf.tid /\ x.pf.lid /\ x.pf.look /\ NoDupLookups(Rec.pre) /\ ~IsSwitch(x.c) /\ TidOn(x.pre)) =>
+    /\ (x.pf.forest /\ x.pf.look /\ NoDupLookups(Rec.pre) /\ ~IsSwitch(x.c) /\ TidOn(x.pre)) =>
            /\ LookupOK(x.post) /\ QueriesOK(Rec.post, x.post)
            /\ (Accepted(x) => /\ LookupOK(x.u_post) /\ NoDupLookups(Rec.u_post)
                               /\ LookupOK(x.r_post) /\ NoDupLookups(Rec.r_post))
